@@ -869,6 +869,8 @@ class Walker:
     def s_While(self, s, st):
         cl = self.counter_while(s, st)
         if cl is not None:
+            if cl.start.is_const() and cl.stop.is_const() and cl.stop.k <= cl.start.k and not s.orelse:
+                return [(st, "fall", None)]          # `while i < n` with constant i >= n on this path: the body never runs
             return self.run_loop(s, st, cl, s.body, s.orelse)
         lp = Loop(s, "while")
         return self.run_loop(s, st, lp, s.body, s.orelse, test=s.test)
@@ -903,8 +905,9 @@ class Walker:
         iv = self.ev(inc, st)
         if not (isinstance(iv, Num) and iv.lin == Lin.const(1)):
             return None
+        # (a `continue` would skip the final increment; a `break` merely leaves the loop, as it does in the for-spelling)
         others = [n for b in s.body[:-1] for n in walk_no_nested(b)
-                  if (isinstance(n, ast.Name) and n.id == var and isinstance(n.ctx, ast.Store)) or isinstance(n, (ast.Continue, ast.Break))]
+                  if (isinstance(n, ast.Name) and n.id == var and isinstance(n.ctx, ast.Store)) or isinstance(n, ast.Continue)]
         if others:
             return None
         bnames = {n.id for n in ast.walk(bound) if isinstance(n, ast.Name)}
